@@ -102,6 +102,15 @@ class CanaryClassK3:
         return 7
 
 
+class _ToObj:
+    """What MatchUnless needs of a node: to_obj()."""
+    def __init__(self, o):
+        self.o = o
+
+    def to_obj(self):
+        return self.o
+
+
 def environment():
     s, t = CanaryClassK3(), CanaryClassK3()
     return {"s": s, "t": t, "lst": [s, 1], "tup": (s, t), "d": {"k": s, "a": s, 0: s}, "from": s, "to": t, "k": s, "a": s,
@@ -155,6 +164,14 @@ def evaluate(prog):
         ex.parse("prev == zz or len").eval(locals=dict(_env[0]))
     except BaseException:
         pass
+    # ... and the way the command uses expressions: --match-if / --match-unless matchers constructed and applied before
+    try:
+        from graphtage import constraints
+        _env[0] = {"from": Inner(), "to": Inner()}
+        constraints.MatchIf(ex.parse("from == to"))(_env[0]["from"], _env[0]["to"])
+        constraints.MatchUnless(ex.parse("from == to"))(_ToObj(_env[0]["from"]), _ToObj(_env[0]["to"]))
+    except BaseException:
+        pass
     del _log[:]
     env = environment()
     _env[0] = env
@@ -186,6 +203,15 @@ def evaluate(prog):
             text = str(exn)
         except Exception:
             text = ""
+    if "from" in prog or "to" in prog:
+        # the same expression as a --match-if condition (exceptions are swallowed by the matcher; the tripwires still log)
+        try:
+            from graphtage import constraints
+            _env[0] = env
+            with deadline(3.0):
+                constraints.MatchIf(ex.parse(prog))(env["from"], env["to"])
+        except BaseException:
+            pass
     ev = list(_log)
     for c in CANARIES[:2]:
         # only the VALUES of private attributes are canaries.  The class name is not: Python's own error messages, the
@@ -225,7 +251,9 @@ def run():
              'vars(s)', 'type(s)', 'dir(s)', '__import__("os")', 'eval("1")', 'open("/etc/passwd")', 'globals()',
              's.method()', 's.pub.value', 'hash(s)', 'str(s)', 'ascii(s)', 'sorted([s.value, t.value])',
              'from._x', 'to.pub._x', '"{0._x}".format(from)', 'from.pub.value == to.pub.value',
-             'prev', 'zz', 'zz.pub', 'zz._x', 'prev.value', 'len(lst)', 'len(lst) == 2', 'len']
+             'prev', 'zz', 'zz.pub', 'zz._x', 'prev.value', 'len(lst)', 'len(lst) == 2', 'len',
+             'hasattr(s, "_x")', 'hasattr(from, "_x") and hasattr(to, "_x")', 'isinstance(s, str)', 'hasattr', 'isinstance',
+             'callable(s)', 'issubclass', 'getattr(from, "_x")', 'from._x == to._x', 'from.pub._x']
     r = rng("c19")
     if t != "quick":
         toks = ["._x", ".pub", ".format", "(", ")", "[", "]", '"{0._x}"', "s", "lst", ",", " ", ".__class__", "getattr", "0"]
